@@ -1129,7 +1129,9 @@ func runC16(r *Rng, n int) {
 			base = "f"
 		}
 		arg := c16GenArg(r)
-		switch k := r.Intn(11); {
+		switch k := r.Intn(14); {
+		case k >= 11:
+			c16GenMWV(r) // the value dimension (middleware_values.go)
 		case k == 10:
 			G, K := 2+r.Intn(7), r.Pick(1, 5, 20, 40)
 			specs := c16GenSpecs(r, 3)
